@@ -11,7 +11,7 @@ import canon
 EXTRA_SCAN = ["CobraModel/Lemmas/Core.lean", "CobraModel/Model/Core.lean", "CobraModel/Lemmas/SplitRange.lean"]
 
 
-def run_core_property(ctx, module, kinds, oracles, quick, thorough, rule, extra_oracle=None, maxlen=14, assumptions=()):
+def run_core_property(ctx, module, kinds, oracles, quick, thorough, rule, extra_oracle=None, maxlen=14, assumptions=(), profiles=None):
     if getattr(ctx, "replay", None):
         data = json.loads(open(ctx.replay).read())
         v = data.get("violation") or {}
@@ -28,13 +28,25 @@ def run_core_property(ctx, module, kinds, oracles, quick, thorough, rule, extra_
     done = 0
     while done < n and not ctx.violations and len(ctx.broken) < 3:
         b = min(250, n - done)
-        core_engine.explore(ctx, b, kinds=kinds, maxlen=maxlen, oracles=oracles, extra_oracle=extra_oracle, stats=stats, engine_label=ctx.pid)
+        core_engine.explore(ctx, b, kinds=kinds, maxlen=maxlen, oracles=oracles, extra_oracle=extra_oracle, stats=stats, engine_label=ctx.pid, profiles=profiles)
         done += b
 
     def search():
         core_engine.explore(ctx, ctx.scale(1500, 6000), kinds=kinds, maxlen=maxlen, oracles=oracles, extra_oracle=extra_oracle,
-                            stats=stats, with_model=False, engine_label=ctx.pid + " search")
+                            stats=stats, with_model=False, engine_label=ctx.pid + " search", profiles=profiles)
 
+    # known findings: replay each recorded witness; report it while it still fails (never an alarm either way)
+    for kf in common.known_for(ctx.pid):
+        w = kf.get("witness") or {}
+        if "spec" in w:
+            try:
+                f = core_engine.replay_ops(w["spec"], w["ops"], tuple(w.get("oracles", oracles)))
+            except Exception as e:
+                f = [{"what": f"{type(e).__name__}: {e}"}]
+            if f:
+                ctx.known_hits.append(f"{kf['signature']}: {kf['description'][:160]}")
+            else:
+                ctx.notes.append(f"known finding {kf['signature']} no longer reproduces")
     modelled = sorted(k for k in stats.get("op_hist", {}) if k in coreops.MODELLED)
     ctx.coverage.update({
         "evaluations": stats.get("steps", 0),
